@@ -17,7 +17,8 @@ bids={f['id'] for f in b.get('findings',[])}
 # entries of the branch's own properties: the branch version wins (edited keys, removed entries)
 a['findings']=[f for f in a['findings'] if not (f['property'] in props and f['id'] not in bids)]
 for f in b.get('findings',[]):
-    if f['id'] not in ids: a['findings'].append(f)
+    if f['id'] not in ids:
+        if not props or f['property'] in props: a['findings'].append(f)
     elif f['property'] in props:
         a['findings']=[f if g['id']==f['id'] else g for g in a['findings']]
 for s in b.get('fixed',[]):
